@@ -163,6 +163,13 @@ struct Run {
                 else if (o == "wb") ret = exp->write_block();
                 else if (o == "rot" && op.value("mismatch", false) && outkind == "fd") ret = rotate_mismatch(op.value("export", false));
                 else if (o == "rot") ret = rotate(op.value("export", false));
+                else if (o == "rotbad") {
+                    // a rotation that cannot succeed (a descriptor that is not open / a name in a directory that does not
+                    // exist); the call reports it.  Only used where outputs are compared, not modelled (C20 byte identity).
+                    pending_out = outkind == "file" ? cur_name + suffix() : cur_path;
+                    if (outkind == "file") ret = exp->rotate_output(g_tmpdir + "/no-such-dir/x", op.value("export", false));
+                    else ret = exp->rotate_output(-1, op.value("export", false));
+                }
                 else if (o == "addbp") { BlockParameters bp = vr::bp_in(op["bp"]); ret = exp->add_block_parameters(bp); mybps.push_back(bp); }
                 else if (o == "setbp") ret = exp->set_active_block_parameters(static_cast<index_t>(op["i"].get<uint64_t>())) ? 1 : 0;
                 else if (o == "counts") ret = 0;
